@@ -410,6 +410,31 @@ def r128(P, rep):
     _import(rep, 'R12.8', sub, 'stage 2 would not link or would differ where chibicc\'s own sources rely on this: ')
 
 
+def r129(P, rep, tier):
+    """chibicc's own tokenizer and parser store and discard long double values (every floating literal goes through strtold): the self-compiled
+    compiler only behaves like the reference build if the code generator keeps the x87 stack balanced. C20's per-kind effect rules, re-used"""
+    from ..report import Report
+    from . import c20
+    rep.rule('R12.9', 'self-compilation: every gen_expr / gen_stmt / gen_addr arm keeps the machine stack and the x87 register stack balanced (same obligations as C20 R20.1, R20.2, R20.7); chibicc\'s own sources evaluate long double expressions for every floating literal they read', floor=80)
+    sub = Report('C20')
+    c20.run(P, sub, tier)
+    keep = [o for o in sub.obs if o['key'].split(':', 1)[0] in ('R20.1', 'R20.2', 'R20.7')]
+    sub.obs = keep
+    _import(rep, 'R12.9', sub, 'the self-compiled compiler would leak or underflow the x87/machine stack where its own sources use this construct: ')
+
+
+def r1210(P, rep):
+    """chibicc's sources have same-named file-scope statics in different units (output_file in main.c and codegen.c, current_fn in parse.c and codegen.c):
+    stage 2 is the same program only if every static object keeps local binding. C15's emit_data decision table, re-used"""
+    from ..report import Report
+    from ..chibi import CG
+    from . import c15
+    rep.rule('R12.10', 'self-compilation: emit_data gives every object the binding, section, alignment and size its flags prescribe (same obligations as C15 R15.1); the units of chibicc share names of file-scope statics', floor=25)
+    sub = Report('C15')
+    c15.r151(CG(P), sub)
+    _import(rep, 'R12.10', sub, 'stage 2 would not be the same program where chibicc\'s own units rely on this: ')
+
+
 # ------------------------------------------------------------------------ run ---
 def run(P, rep, tier):
     rep.explanation = ('Determinism clause of C12 only: which functions may obtain a value that differs from run to run (time, pid, random, environment, '
@@ -429,6 +454,8 @@ def run(P, rep, tier):
     r126(P, rep)
     r127(P, rep)
     r128(P, rep)
+    r129(P, rep, tier)
+    r1210(P, rep)
     cg = L.CallGraph(P)
     units = [P.unit(n) for n in P.unit_names]
     # ---------------- R12.1
